@@ -425,6 +425,19 @@ def classify_site(ck, prog, ctx, bb, name, kinds, key):
                         if direct:
                             ck.ob("C09.4", f"{key}|arith-on-success-value", False, fn=path, site=ctx.site(bb),
                                   detail=f"the success value of {name} is modified before being returned: {show(y)}")
+    # ... nor passed through a function that computes with it (min, max, clamp, saturating_*, ...): with MSG_TRUNC recvmsg answers the real
+    # datagram length, larger than the buffers; clamping it hides the truncation. Decoders that only re-type the value are listed.
+    RETYPE = ("coerce_from_register", "From::from", "Into::into", "TryFrom::try_from", "TryInto::try_into", "NonNull::<T>::new_unchecked", "NonNull::<T>::new",
+              "with_exposed_provenance", "with_exposed_provenance_mut", "::cast", "from_bits_retain", "from_bits_truncate", "::into", "::from")
+    for rb, e in ctx.ret_expr().items():
+        for x in walk_deep(e, ctx.prov):
+            if x[0] == "agg" and x[2] == "Ok" and x[3]:
+                for y in walk(x[3][0]):
+                    if y[0] == "call" and y[3] != bb and not is_raw_syscall(y[1]) and not (y[1] or "").endswith(RETYPE):
+                        direct = [a for a in (y[2] or ()) if isinstance(strip_casts(a), tuple) and strip_casts(a)[0] == "call" and strip_casts(a)[3] == bb and is_raw_syscall(strip_casts(a)[1])]
+                        if direct:
+                            ck.ob("C09.4", f"{key}|success-value-computed-with", False, fn=path, site=ctx.site(bb),
+                                  detail=f"the success value of {name} is passed through `{y[1]}` before being returned: what the kernel answered is no longer what the caller gets")
     # C09.4 (width): a full-width success value (offset, byte count, address) is not squeezed through a 32-bit type
     if name in WIDE_RESULTS:
         for rb, e in ctx.ret_expr().items():
